@@ -745,8 +745,13 @@ class Visitor(ast.NodeVisitor):
             for keyword in node.keywords:
                 if keyword.arg is None:
                     kw = self.visit(node=keyword.value)
-                    for key, val in kw.items():
-                        kwargs[key] = val
+
+                    # Please see "NOTE ABOUT PLACEHOLDERS AND RE-COMPUTATION"
+                    if kw is PLACEHOLDER:
+                        kwargs[PLACEHOLDER] = PLACEHOLDER
+                    else:
+                        for key, val in kw.items():
+                            kwargs[key] = val
 
                 else:
                     kwargs[keyword.arg] = self.visit(node=keyword.value)
